@@ -204,5 +204,17 @@ Section Cnet.
     | OLeaf _ c => rows_normb T t1 tadd teqb (clt_tree T t0 c)
     | OCut _ _ w0 w1 l r => teqb (w0 + w1) t1 && norm_cnetb l && norm_cnetb r
     end.
+  (* the root of every leaf CLT has no predecessor and its two CPT rows coincide
+     (params[root, 0, :] = params[root, 1, :]): with wf_cnetb this makes the full-evidence gather
+     equal to message passing (Proofs/CltGather.v) *)
+  Definition leaf_rootb (c : clt) : bool :=
+    match nth (croot T c) (cpar c) None with None => true | Some _ => false end &&
+    teqb (cpt_fn T t0 c (croot T c) 1%Z 0%Z) (cpt_fn T t0 c (croot T c) 0%Z 0%Z) &&
+    teqb (cpt_fn T t0 c (croot T c) 1%Z 1%Z) (cpt_fn T t0 c (croot T c) 0%Z 1%Z).
+  Fixpoint groot_okb (n : ornode) : bool :=
+    match n with
+    | OLeaf _ c => leaf_rootb c
+    | OCut _ _ _ _ l r => groot_okb l && groot_okb r
+    end.
 End Cnet.
 Arguments OLeaf {T}. Arguments OCut {T}.
